@@ -72,6 +72,11 @@ CLAIMED = {
         "Decides that the emulator and every C program Orc can generate subscript operand arrays only with canonical or documented index forms under `i < n`, never store through (const) source pointers, that each size case of the x86 move helpers and load/store rules touches exactly the entitled number of bytes (loadupdb N/2, loadupib N/2+1 and 1 for a single element), that array stores are emitted only by store rules through the destination pointer, and that generated code writes only a frozen set of executor scratch slots. Region counters, strides, row advance and rep-movs counts are not decided.",
         "Trusted: binutils operand-size annotation; SLOT_TABLE and GEN_FORMS tables in rules/c03.py (confirmed by reading; documented forms from doc/opcode_table.xml).",
         "DESIGN.md §4 C03"),
+    "C04": (
+        "exhaustiveness of C-rule registration vs the opcode table; staleness check comparing the statement templates read from this run's AST of orcprogram-c.c/opcodes.h (format literals with literal arguments substituted) with the statements of the checked-in emulator",
+        "Decides sentence 2 of the property (the checked-in emulator is what the C generator produces) for the 186 straight-line C rules, and that every opcode of the sys table has a C rule. Rules with branches are covered by C03-D1b only as far as their subscripts go. Value equivalence of compiled C and emulation is not decided.",
+        "Trusted: clang AST; name placeholders as produced by c_get_name_int/float.",
+        "DESIGN.md §4 C04"),
 }
 
 NOT_YET = "check under construction in this round; not claimed until its rules are exact on the current tree"
